@@ -35,6 +35,7 @@ def run(ck):
     ck.rule("C14.R4", "a later record updates the span's stored fields under one write lock (read-merge-store is atomic); fields are stored once, merged when present", floor=3)
     ck.rule("C14.R9", "numbers the JSON visitors do not handle themselves (128-bit) reach record_debug with every digit: Visit's provided methods pass the value on unchanged (as C10.R4)", floor=8)
     ck.rule("C14.R10", "a value is rendered the same way whether it is an event field or a span field: the event-side visitors (tracing-serde) override no record_* method that the span-side JsonVisitor leaves to Visit's provided default", floor=2)
+    ck.rule("C14.R11", "a span's stored JSON fields are its own: a recycled registry slot never carries the previous span's extensions over (Clear empties them on every path, as C05.R1)", floor=1)
     ck.rule("C14.R8", "every span field the JSON visitor is handed is stored (as C13.R10)", floor=4)
     ck.rule("C14.R7", "the JSON span list is the event's own scope, root to leaf (as C13.R7)", floor=5)
     ck.rule("C14.R3", "span list is root to leaf", floor=1)
@@ -53,6 +54,8 @@ def run(ck):
     from rules import C10
     C10.visit_defaults(ck, F, rid="C14.R9")
     r10_siblings(ck, F)
+    from rules import C05 as _C05
+    _C05.clear_resets_slot(ck, F, "C14.R11")
 
 
 def r1(ck, F):
